@@ -167,7 +167,7 @@ def prop(pid, **kw):
 
 
 prop("C01", harness="h_exact",
-     quick=dict(shards=16, cases=1500, env={"VERIF_MAXN": "14"}),
+     quick=dict(shards=16, cases=6000, env={"VERIF_MAXN": "14"}),
      thorough=dict(shards=16, cases=15000, env={"VERIF_MAXN": "40"}),
      rule="Generated simple graphs (12 shape families incl. empty/forest/multi-component, disjoint unions, pendant trees, "
           "vertex+edge-order permutations) x exact weight palettes x {double,int} x {signed,fvs_trees,iso_trees}; oracle: "
@@ -176,7 +176,7 @@ prop("C01", harness="h_exact",
      assumptions=["weights are exactly summable (dyadic/integer), graphs simple: the property's stated domain",
                   "output iterator is a back_inserter into std::list<std::list<edge>> as in every caller in the repository"])
 prop("C02", harness="h_exact",
-     quick=dict(shards=16, cases=1200, env={"VERIF_MAXN": "12"}),
+     quick=dict(shards=16, cases=6000, env={"VERIF_MAXN": "12"}),
      thorough=dict(shards=16, cases=12000, env={"VERIF_MAXN": "32"}),
      rule="Same generator as C01; oracle: returned value == exact sum of emitted cycle weights, == optimum from an independent "
           "reference (brute force over all simple cycles + greedy GF(2) independence for n<=8,m<=22; textbook de Pina with plain "
